@@ -5,7 +5,8 @@ import HeartwoodModel.Driver.Util
 A case is the annotated script written by the harness (see `harness/c09/src/main.rs`). The driver reads
 the annotations (`@ok:K:id=obj`, `@fail`, `@rm:K:id=obj|-`, `@f:changes|refs`, `@x:changes`, `@pool:ids`) and the cache
 maintenance tokens (`w.P`, `iw.I`, `wa`, `iwa`); the other script tokens only say which Rust API produced
-the annotation that follows them. For every `@pool` it prints the answers of every query on the model's
+the annotation that follows them; `R0` / `R1` select the repository the following tokens operate on (the
+repositories share one cache database). For every `@pool` it prints, for each repository, the answers of every query on the model's
 cache and on the model's truth: `<cached>` or `<cached>!<direct>`. -/
 namespace HeartwoodModel.Driver.C09
 open HeartwoodModel.CobCache HeartwoodModel.Driver.Util
@@ -51,13 +52,18 @@ def binding? {α : Type} (parse : String → Option α) (s : String) : Option (I
   | [n, o] => (parse o).map fun v => (n, some v)
   | _ => none
 
+/-- The repositories of a case (they share the cache). -/
+def repos : List Repo := ["R0", "R1"]
+
 structure St where
   patches : Store Patch := Store.empty
   issues : Store Issue := Store.empty
+  /-- the repository the following tokens operate on (`R0` / `R1` tokens switch) -/
+  cur : Repo := "R0"
   outs : List String := []
 
-def pstep (s : St) (op : Op Patch) : St := { s with patches := s.patches.step stdPatchCodec.enc op }
-def istep (s : St) (op : Op Issue) : St := { s with issues := s.issues.step stdIssueCodec.enc op }
+def pstep (s : St) (op : Op Patch) : St := { s with patches := s.patches.step stdPatchCodec.enc s.cur op }
+def istep (s : St) (op : Op Issue) : St := { s with issues := s.issues.step stdIssueCodec.enc s.cur op }
 
 /-! ### printing -/
 
@@ -83,13 +89,14 @@ def showICounts (c : IssueCounts) : String := joinWith "," [toString c.open_, to
 def showFind (r : Id × Patch × Revision) (rid : Id) : String :=
   r.1 ++ "/" ++ rid ++ "/" ++ r.2.2.digest ++ "#" ++ r.2.1.digest
 
-def query (s : St) (pool : List Id) : String :=
+/-- Every query on the cache handle of repository `r` and on `r` directly. -/
+def queryRepo (s : St) (r : Repo) (pool : List Id) : String :=
   let pc := stdPatchCodec
   let ic := stdIssueCodec
-  let ct := s.patches.cache
-  let tt := s.patches.truth
-  let ict := s.issues.cache
-  let itt := s.issues.truth
+  let ct := view r s.patches.cache
+  let tt := s.patches.truth r
+  let ict := view r s.issues.cache
+  let itt := s.issues.truth r
   let g := pool.map fun n =>
     n ++ "=" ++ cmp (showRes (showOpt (·.digest)) (cachedGet pc ct n)) (showOpt (·.digest) (directGet tt n))
   let l := cmp (showRes (showTable (·.digest)) (cachedList pc ct)) (showTable (·.digest) (directList tt))
@@ -110,11 +117,14 @@ def query (s : St) (pool : List Id) : String :=
   joinWith "|" (["G:" ++ joinWith "," g, "L:" ++ l] ++ sts ++ ["C:" ++ c, "F:" ++ joinWith "," f,
     "IG:" ++ joinWith "," ig, "IL:" ++ il] ++ ists ++ ["IC:" ++ icn])
 
+def query (s : St) (pool : List Id) : String :=
+  joinWith " ## " (repos.map fun r => r ++ "[" ++ queryRepo s r pool ++ "]")
+
 /-! ### tokens -/
 
 def scriptOps : List String :=
   ["pc", "pd", "rev", "red", "cm", "cred", "rv", "rvc", "rvred", "lc", "mg", "ed", "rm",
-   "ic", "icm", "icred", "ilc", "ied", "irm"]
+   "ic", "icm", "icred", "ilc", "ied", "irm", "bogus"]
 
 /-- `Kname=obj` with `K ∈ {p, i}`; returns the two kinds of bindings. -/
 def kbinding? (s : String) : Option (Sum (Id × Option Patch) (Id × Option Issue)) :=
@@ -171,6 +181,7 @@ def stepTok (s : St) (tok : String) : Option St :=
     some { s with outs := query s pool :: s.outs }
   else if tok.startsWith "@" then none
   else if tok == "q" then some s
+  else if repos.contains tok then some { s with cur := tok }
   else if tok == "wa" then some (pstep s .rewriteAll)
   else if tok == "iwa" then some (istep s .rewriteAll)
   else if tok.startsWith "w." then some (pstep s (.rewrite ((tok.drop 2).toString)))
